@@ -39,7 +39,9 @@ RULE = ("(a) random dataset stacks: a harness root (tensor / PIL / (image, mask)
         "KDMixWrapper / common wrappers (BYOL, ImagenetMinaug x2, MUGS) / KDSubset / ShuffleWrapper / RepeatWrapper / plain KDWrapper, all "
         "without seed, optionally joined by KDConcatDataset, below ModeWrapper (several modes, return_ctx) or InterleavedSampler's concat "
         "dataset; the parts of a concat / interleaved stack are separate datasets or different wrapper stacks over ONE shared root / shared "
-        "lower layers (shared part first or last); multi-view config lists mix KDTransform views, identity views and plain-callable views "
+        "lower layers (shared part first or last); registered collators are plain KDSingleCollators or ONE composite (KDComposeCollator over them / "
+        "KDSingleCollatorWrapper) used directly as collate function; in a third of the cases the hook has already been run once by hand in "
+        "the parent process before the workers are created; multi-view config lists mix KDTransform views, identity views and plain-callable views "
         "(function / callable object) in every order (plain first / middle / last); transforms are random well-typed compositions (kdv/h07_recipes.py) to depth 3 of compose / bare list / random-apply / "
         "patchwise / scheduled over every stochastic recipe; x W in {1,2,3,4} workers of one base seed + one worker of another base seed "
         "(same rank) + one duplicate worker, K in 3..6 samples. (b) probe stacks of the same shapes on a real forked DataLoader "
@@ -71,7 +73,9 @@ ASSUMPTIONS = [
 MONITORS = ["sim_workers_observed", "live_generators_judged", "state_pairs_compared", "raw_sets_compared", "same_seed_pairs_compared",
             "samples_drawn", "collated_batches", "loader_runs", "loader_draws_observed", "loader_worker_pairs_compared",
             "loader_repeats_compared", "mv_plain_view_before_kd_view", "concat_parts_sharing_a_dataset",
-            "interleaved_parts_sharing_a_dataset", "single_worker_sim_cases", "single_worker_loader_cases"]
+            "interleaved_parts_sharing_a_dataset", "single_worker_sim_cases", "single_worker_loader_cases",
+            "hook_already_run_in_parent_sim_cases", "hook_already_run_in_parent_loader_cases",
+            "composite_collator_registered_sim_cases", "composite_collator_registered_loader_cases"]
 
 STEP_LIMIT = 3_000_000
 WITNESSES_PER_KEY = 4
@@ -97,7 +101,7 @@ def gen_cases(run):
         b1 = rng.randrange(2 ** 40)
         yield {"kind": "sim", "top": top, "build_seed": rng.randrange(2 ** 31), "W": W, "base": [b1, b1 + 1000 + rng.randrange(2 ** 40)],
                "alt_rank": rng.randrange(W), "dup_rank": rng.randrange(W), "K": rng.choice([3, 4, 4, 6]), "B": rng.choice([1, 2, 3]),
-               "idx_seed": rng.randrange(10 ** 6)}
+               "idx_seed": rng.randrange(10 ** 6), "parent_hook": rng.randrange(W) if rng.random() < 0.35 else None}
         if i % every == every // 2 and made_loader < n_loader:
             made_loader += 1
             yield _loader_case(rng, made_loader)
@@ -110,7 +114,8 @@ def _loader_case(rng, k=0):
     s1 = rng.randrange(2 ** 40)
     return {"kind": "loader", "top": G.gen_probe_stack(rng), "build_seed": rng.randrange(2 ** 31), "W": [1, 2, 3, 1, 2, 4][k % 6],      # every worker count in every run, a single worker included
             
-            "B": rng.choice([1, 2, 2, 3]), "torch_seed": [s1, s1 + 1 + rng.randrange(2 ** 40)], "base": [rng.randrange(2 ** 40)]}
+            "B": rng.choice([1, 2, 2, 3]), "torch_seed": [s1, s1 + 1 + rng.randrange(2 ** 40)], "base": [rng.randrange(2 ** 40)],
+            "parent_hook": [None, 0, None][k % 3]}
 
 
 # ------------------------------------------------------------------------------------------------ helpers
@@ -193,6 +198,13 @@ def observe_sim(spec, shift, stats):
         return col.found, 0
     kw = S.hook_kwargs_for(top)
     interleaved = top["k"] == "interleaved"
+    if spec.get("parent_hook") is not None:
+        # history: the hook was already run once by hand in the parent (main process, parent's global RNG) before the fork
+        _seed_globals(spec["build_seed"] + 1)
+        ok, _ = call_real(col, lambda: built.dataset.worker_init_fn(spec["parent_hook"], **kw), crash_key="hook-crash",
+                          what=f"worker_init_fn({spec['parent_hook']}) called in the parent process")
+        if not ok:
+            return col.found, 0
     pre = {e.path: e for e in S.census(built.dataset)}
     pre_state = {p: e.state for p, e in pre.items()}
     pre_raw = {p: set(e.raw()) for p, e in pre.items()}
@@ -413,6 +425,12 @@ def observe_loader(run, spec, shift):
     if not ok:
         return col.found
     kw = {"batch_size": B, "updates": 10 ** 6} if S.hook_kwargs_for(top) else {}
+    if spec.get("parent_hook") is not None:
+        _seed_globals(spec["build_seed"] + 1)
+        ok, _ = call_real(col, lambda: built.dataset.worker_init_fn(spec["parent_hook"], **kw), crash_key="hook-crash",
+                          what=f"worker_init_fn({spec['parent_hook']}) called in the parent process")
+        if not ok:
+            return col.found
     parent = _parent_values(built.dataset)
     runs = []
     for ts in (seeds[0], seeds[0], seeds[1]):
@@ -532,6 +550,12 @@ def _stack_cover(run, spec):
     run.cover("workers", spec["kind"], spec["W"])
     if spec["W"] == 1:
         run.count(f"single_worker_{spec['kind']}_cases")
+    if spec.get("parent_hook") is not None:
+        run.count(f"hook_already_run_in_parent_{spec['kind']}_cases")
+    run.cover("history", spec["kind"], "parent-hook" if spec.get("parent_hook") is not None else "fresh")
+    for n in S.stack_nodes(top):
+        if n["k"] == "root" and n.get("collators") and n["collators"][0]["c"] in ("compose", "wrapper"):
+            run.count(f"composite_collator_registered_{spec['kind']}_cases")
 
 
 def _note(run, key, val):
